@@ -7,13 +7,17 @@ Model: `RedunModel.Model.Db` (`_get_call_node`, `record_call_node` statement by 
 Full-strength statement (`history_shallow_sound`): in every database state reachable by ANY history of recording
 operations, process deaths at ANY commit point, restarts, cache hits and record imports, a shallow hit on call node
 `n` implies that every call node reachable from `n` through recorded child edges has a task hash that is in the
-current registry.  It is proved for every `Variant` with `atomicCallNode`, `cseSubtreeFromDb` and `emptyNotCurrent`
-(the repaired code).  For `Variant.current` (the unrepaired tree) the statement is false: four closed witnesses
+current registry.  It is proved for every `Variant` with `cseSubtreeFromDb` and `emptyNotCurrent` — atomicity of
+`record_call_node` is NOT needed: the two-commit code can leave a node with an EMPTY set behind, which is never served.  For `Variant.current` (the unrepaired tree) the statement is false: four closed witnesses
 (`refuted_crash`, `refuted_retry`, `refuted_transfer`, `refuted_cse_twin`).
 -/
 import RedunModel.Lemmas.Db
 namespace RedunModel.C03
 open RedunModel.Db
+
+theorem C03_hasNode_ext {db d : Db} {ns : List NodeRow} (hn : d.nodes = db.nodes ++ ns) {c : H}
+    (h : hasNode db c = true) : hasNode d c = true := by
+  simp only [hasNode, hn, List.any_append, Bool.or_eq_true]; exact Or.inl h
 
 /-- referential closure of the call-graph tables + "a non-empty recorded subtree set is complete" -/
 structure GraphInv (db : Db) : Prop where
@@ -96,20 +100,49 @@ theorem snap_of_final {v : Variant} {a : CallArgs} {db0 d : Db} (h : CallNodeFin
     · exact Or.inr (Or.inr ⟨hh.1, hn, hh.2, h2 hn hh⟩)
     · exact Or.inl (by rw [h3 hn hh])
 
-/-- **Crash safety of the repaired `record_call_node`**: whatever commit the process dies at, the durable state
-satisfies the invariant (the new call node is either absent or present together with its complete subtree set). -/
-theorem record_crash_safe (v : Variant) (hv : v.atomicCallNode = true) (a : CallArgs) (s : Sess)
+/-- the unrepaired code's intermediate state (node and edges durable, subtree rows not yet): the node has an EMPTY
+recorded set, so the invariant holds vacuously for it -/
+theorem graphInv_of_bare {a : CallArgs} {db0 d : Db} (hI : GraphInv db0) (hacyc : a.node.call ∉ a.children)
+    (h : CallNodeBare a db0 d) : GraphInv d := by
+  obtain ⟨hnew, hn, he, hs⟩ := h
+  have hes : ∀ e ∈ edgeRows (applyOp db0 (.node a.node)) a.node.call a.children,
+      e.parent = a.node.call ∧ hasNode db0 e.child = true := by
+    intro e hmem
+    have := mem_edgeRows hmem
+    refine ⟨this.1, ?_⟩
+    have h3 := this.2.2
+    simp only [hasNode, applyOp, List.any_append, List.any_cons, List.any_nil, Bool.or_false, Bool.or_eq_true,
+      beq_iff_eq] at h3
+    rcases h3 with h3 | h3
+    · exact h3
+    · exact absurd (h3 ▸ this.2.1) hacyc
+  have himp := inv_import (ns := [a.node]) hn he hs (by simpa using hnew)
+    (fun e hm => by rw [(hes e hm).1]; exact hnew) hI.edges hI.subs hI.inv
+  have hnode' : ∀ c, hasNode db0 c = true → hasNode d c = true := fun c hc => C03_hasNode_ext hn hc
+  refine ⟨himp.1, ?_, himp.2⟩
+  intro e hmem
+  rw [he, List.mem_append] at hmem
+  rcases hmem with hold | hnw
+  · exact ⟨hnode' _ (hI.edges e hold).1, hnode' _ (hI.edges e hold).2⟩
+  · refine ⟨?_, hnode' _ (hes e hnw).2⟩
+    rw [(hes e hnw).1]; simp [hasNode, hn]
+
+/-- **Crash safety of `record_call_node`, repaired or not**: whatever commit the process dies at, the durable state
+satisfies the invariant — the new call node is absent, or present with its complete subtree set, or (unrepaired
+two-commit code only) present with an EMPTY set, which the repaired `_get_call_node` never serves. -/
+theorem record_crash_safe (v : Variant) (a : CallArgs) (s : Sess)
     (hp : s.pend = []) (hI : GraphInv s.db)
     (hown : a.node.task ∈ a.subtree) (hacyc : a.node.call ∉ a.children)
     (hch : ∀ ch ∈ a.children, hasNode s.db ch = true → Covers s.db ch a.subtree)
     (hself : hasNode s.db a.node.call = true → Covers s.db a.node.call a.subtree) :
     (∀ snap ∈ (recordCallNode v a s).log, snap ∈ s.log ∨ GraphInv snap.db) ∧
     GraphInv (recordCallNode v a s).db := by
-  have h := recordCallNode_atomic v hv a s hp
+  have h := recordCallNode_shapes v a s hp
   refine ⟨fun snap hmem => ?_, graphInv_of_snap hI hown hacyc hch hself (snap_of_final h.2.2)⟩
-  rcases h.2.1 snap hmem with h' | h'
+  rcases h.2.1 snap hmem with h' | h' | h'
   · exact Or.inl h'
   · exact Or.inr (graphInv_of_snap hI hown hacyc hch hself h')
+  · exact Or.inr (graphInv_of_bare hI hacyc h')
 
 /-! ### the scheduler's bookkeeping -/
 
@@ -180,6 +213,13 @@ theorem goodRes_of_snap {v : Variant} {a : CallArgs} {db0 d : Db} {r : JobRes} (
     rw [(mem_edgeRows hmem).1]; exact hnew
   · obtain ⟨_, _, _, hn, he, _⟩ := h
     exact goodRes_ext (ns := []) (es := []) (by simp [hn]) (by simp [he]) (by simp) (by simp) hI.edges hg
+
+theorem goodRes_of_bare {a : CallArgs} {db0 d : Db} {r : JobRes} (hI : GraphInv db0)
+    (h : CallNodeBare a db0 d) (hg : GoodRes db0 r) : GoodRes d r := by
+  obtain ⟨hnew, hn, he, _⟩ := h
+  refine goodRes_ext hn he (by simpa using hnew) ?_ hI.edges hg
+  intro e hmem
+  rw [(mem_edgeRows hmem).1]; exact hnew
 
 /-! ### histories -/
 
@@ -257,7 +297,7 @@ theorem cached_good {v : Variant} {db : Db} {reg : List H} {task c : H} {shallow
   exact Or.inr ⟨this, by simpa using hreg _ this⟩
 
 /-- **Invariant of all histories** of the repaired recording code. -/
-theorem hist_inv (v : Variant) (hv : v.atomicCallNode = true) (hc : v.cseSubtreeFromDb = true)
+theorem hist_inv (v : Variant) (hc : v.cseSubtreeFromDb = true)
     (he : v.emptyNotCurrent = true) {db : Db} {res : List JobRes} (h : Hist v db res) :
     GraphInv db ∧ ∀ r ∈ res, GoodRes db r := by
   induction h with
@@ -277,7 +317,7 @@ theorem hist_inv (v : Variant) (hv : v.atomicCallNode = true) (hc : v.cseSubtree
     exact frame_step ih h.1 (fun snap hs => h.2.1 snap hs) h.2.2 hd
   | @resolve db res node children args _ hch hacyc hmerkle ih =>
     have hgood : ∀ r ∈ children, GoodRes db r := fun r hr => ih.2 r (hch r hr)
-    have hat := recordCallNode_atomic v hv ⟨node, children.filterMap (·.call), args, execSubtree node.task children⟩
+    have hat := recordCallNode_shapes v ⟨node, children.filterMap (·.call), args, execSubtree node.task children⟩
       (.ofDb db) rfl
     have hsnap := snap_of_final hat.2.2
     have hown : node.task ∈ execSubtree node.task children := by simp [execSubtree]
@@ -314,13 +354,16 @@ theorem hist_inv (v : Variant) (hv : v.atomicCallNode = true) (hc : v.cseSubtree
         exact goodRes_of_snap ih.1 hacyc hsnap hg node.call rfl
   | @resolveCrash db res node children args d _ hch hacyc hmerkle hd ih =>
     have hgood : ∀ r ∈ children, GoodRes db r := fun r hr => ih.2 r (hch r hr)
-    have hat := recordCallNode_atomic v hv ⟨node, children.filterMap (·.call), args, execSubtree node.task children⟩
+    have hat := recordCallNode_shapes v ⟨node, children.filterMap (·.call), args, execSubtree node.task children⟩
       (.ofDb db) rfl
     simp only [crashStates, List.mem_map] at hd
     obtain ⟨snap, hs, rfl⟩ := hd
     have hown : node.task ∈ execSubtree node.task children := by simp [execSubtree]
-    rcases hat.2.1 snap hs with h | h
+    rcases hat.2.1 snap hs with h | h | h
     · cases h
+    rotate_left
+    · exact ⟨graphInv_of_bare (a := ⟨node, children.filterMap (·.call), args, execSubtree node.task children⟩)
+        ih.1 hacyc h, fun r hr => by cases hr⟩
     · exact ⟨graphInv_of_snap (a := ⟨node, children.filterMap (·.call), args, execSubtree node.task children⟩)
         ih.1 hown hacyc
         (fun ch hmem _ => exec_covers_children db node.task children hgood ch hmem)
@@ -352,17 +395,23 @@ theorem hist_inv (v : Variant) (hv : v.atomicCallNode = true) (hc : v.cseSubtree
 /-- **C03, full strength, for the repaired code**: after ANY history (runs, edits — the registry is arbitrary —,
 process deaths at any commit, restarts, retries seen as death + re-run, record imports), a shallow hit implies
 that every task recorded at or beneath the hit call node is in the current registry. -/
-theorem history_shallow_sound (v : Variant) (hv : v.atomicCallNode = true) (hc : v.cseSubtreeFromDb = true)
+theorem history_shallow_sound (v : Variant) (hc : v.cseSubtreeFromDb = true)
     (he : v.emptyNotCurrent = true) {db : Db} {res : List JobRes} (h : Hist v db res)
     (t a : H) (reg : List H) (n : NodeRow) (hit : getCallNode v db t a reg = some n) :
     Covers db n.call reg :=
-  shallow_sound v db t a reg n (hist_inv v hv hc he h).1.inv (Or.inl he) hit
+  shallow_sound v db t a reg n (hist_inv v hc he h).1.inv (Or.inl he) hit
 
 /-- instance: `Variant.repaired` -/
 theorem history_shallow_sound_repaired {db : Db} {res : List JobRes} (h : Hist Variant.repaired db res)
     (t a : H) (reg : List H) (n : NodeRow) (hit : getCallNode Variant.repaired db t a reg = some n) :
     Covers db n.call reg :=
-  history_shallow_sound Variant.repaired rfl rfl rfl h t a reg n hit
+  history_shallow_sound Variant.repaired rfl rfl h t a reg n hit
+
+/-- instance: the tree with the proposed small fixes (two-commit `record_call_node` kept) -/
+theorem history_shallow_sound_proposed {db : Db} {res : List JobRes} (h : Hist Variant.proposed db res)
+    (t a : H) (reg : List H) (n : NodeRow) (hit : getCallNode Variant.proposed db t a reg = some n) :
+    Covers db n.call reg :=
+  history_shallow_sound Variant.proposed rfl rfl h t a reg n hit
 
 /-- Uninterrupted, import-free part that also holds for the CURRENT code (`_partial`): a single complete
 `record_call_node` of a new node whose `subtree_tasks` cover its recorded children keeps the invariant.
@@ -457,5 +506,10 @@ example : getCallNode .repaired (transfer (recordCallNode .repaired callA (.ofDb
 
 example : getCallNode .repaired (recordCallNode .repaired callA (.ofDb db0)).db 10 1 [10, 11] = some ⟨21, 10, 1, 100, 1⟩ := by
   decide
+
+/-- the two-commit code with the proposed fixes: no crash point of the recording serves the edited registry -/
+example : ∀ snap ∈ (recordCallNode .proposed callA (.ofDb db0)).log, getCallNode .proposed snap.db 10 1 regEdited = none := by
+  decide
+example : (recordCallNode .proposed callA (.ofDb db0)).log.length = 2 := by decide
 
 end RedunModel.C03
